@@ -284,6 +284,9 @@ class Ctx:
         self.rule = ''
         self.exhaustive = False
         self._known = [k for k in json.load(open(KNOWN))['findings'] if k['property'] == prop] if os.path.exists(KNOWN) else []
+        extra = os.environ.get('VERIF_KNOWN_EXTRA')   # development only: entries proposed but not yet committed
+        if extra and os.path.exists(extra):
+            self._known += [k for k in json.load(open(extra))['findings'] if k['property'] == prop]
         self._nrep = 0
 
     @property
